@@ -227,6 +227,86 @@ func (s *pureScan) scanFunc(params *ast.FieldList, recv *ast.FieldList, body *as
 		}
 		return true
 	})
+	// the tail window of a grown destination: `w := v[len(P):]` where every value v ever holds is make(…) or
+	// append(P, …) and P is never assigned. The window holds appended elements only; writing it touches what append itself
+	// is entitled to write (P's spare capacity or a new array), never P's visible elements.
+	ast.Inspect(body, func(n ast.Node) bool {
+		as, ok := n.(*ast.AssignStmt)
+		if !ok || as.Tok != token.DEFINE || len(as.Lhs) != 1 || len(as.Rhs) != 1 {
+			return true
+		}
+		wid, ok := as.Lhs[0].(*ast.Ident)
+		se, ok2 := ast.Unparen(as.Rhs[0]).(*ast.SliceExpr)
+		if !ok || !ok2 || se.High != nil || se.Slice3 || se.Low == nil {
+			return true
+		}
+		vid, ok := ast.Unparen(se.X).(*ast.Ident)
+		if !ok || !s.locals[info.ObjectOf(vid)] {
+			return true
+		}
+		lc, ok := ast.Unparen(se.Low).(*ast.CallExpr)
+		if !ok || len(lc.Args) != 1 {
+			return true
+		}
+		if b, ok := info.Uses[identOf(lc.Fun)].(*types.Builtin); !ok || b.Name() != "len" {
+			return true
+		}
+		prefix := types.ExprString(ast.Unparen(lc.Args[0]))
+		pid, _ := rootIdent(lc.Args[0])
+		if pid == nil {
+			return true
+		}
+		vobj, pobj := info.ObjectOf(vid), info.ObjectOf(pid)
+		good, nAssign := true, 0
+		ast.Inspect(body, func(m ast.Node) bool {
+			switch t := m.(type) {
+			case *ast.AssignStmt:
+				for i, l := range t.Lhs {
+					if id, _ := rootIdent(l); id != nil && info.ObjectOf(id) == pobj {
+						good = false // the prefix changes
+					}
+					if id, ok := ast.Unparen(l).(*ast.Ident); ok && info.ObjectOf(id) == vobj {
+						nAssign++
+						if len(t.Lhs) != len(t.Rhs) {
+							good = false
+							continue
+						}
+						call, ok := ast.Unparen(t.Rhs[i]).(*ast.CallExpr)
+						if !ok {
+							good = false
+							continue
+						}
+						b, ok := info.Uses[identOf(call.Fun)].(*types.Builtin)
+						switch {
+						case ok && b.Name() == "make":
+						case ok && b.Name() == "append" && len(call.Args) >= 1 && types.ExprString(ast.Unparen(call.Args[0])) == prefix:
+						default:
+							good = false
+						}
+					}
+				}
+			case *ast.ValueSpec:
+				for _, nm := range t.Names {
+					if info.Defs[nm] == vobj && len(t.Values) != 0 {
+						good = false
+					}
+				}
+			case *ast.UnaryExpr:
+				if t.Op == token.AND {
+					if id, _ := rootIdent(t.X); id != nil && (info.ObjectOf(id) == vobj || info.ObjectOf(id) == pobj) {
+						good = false
+					}
+				}
+			}
+			return true
+		})
+		if good && nAssign > 0 {
+			if o := info.Defs[wid]; o != nil {
+				s.fresh[o] = true
+			}
+		}
+		return true
+	})
 	// re-assignments of a fresh local with non-fresh values revoke freshness
 	ast.Inspect(body, func(n ast.Node) bool {
 		if as, ok := n.(*ast.AssignStmt); ok && as.Tok == token.ASSIGN && len(as.Lhs) == len(as.Rhs) {
@@ -686,4 +766,9 @@ func uniq(s []string) []string {
 		}
 	}
 	return out
+}
+
+func identOf(x ast.Expr) *ast.Ident {
+	id, _ := ast.Unparen(x).(*ast.Ident)
+	return id
 }
